@@ -266,6 +266,46 @@ def string_runs():
     return out
 
 
+def regex_shapes():
+    """regex / hex strings assembled from the pieces the literal extraction and the pre/post validators treat
+    specially: empty groups, alternations (narrow, wide-class branches, empty branch, nested), a class, a literal
+    good enough to be the atom, a tail that needs a validator; all combinations, modifiers rotating"""
+    R = 'rule a { strings: $a = %s condition: $a }'
+    empties = ["", "()", "()()"]
+    prefixes = ["", "k.", "ab"]
+    alts = ["(x|y)", "(....|....)", "(....|[^a]...)", "(ab|cd|)", "([pq]x|yz)", "((x|y)|z)", "(...|\\S\\S\\S|\\w\\w\\w\\w)"]
+    mids = ["", "[pq]"]
+    lits = ["abcd", "abcdefgh"]
+    tails = ["", ".z", ".*z", "\\d+$", "(e|f)", "()"]
+    mods = ["", " nocase", " wide", " wide ascii", " fullword"]
+    out, i = [], 0
+    for e in empties:
+        for pf in prefixes:
+            for a in alts:
+                for m in mids:
+                    for l in (lits if not m else lits[:1]):
+                        for t in tails:
+                            out.append(("rx_shape", R % ("/%s%s%s%s%s%s/%s" % (pf, e, a, m, l, t, mods[i % len(mods)]))))
+                            i += 1
+                            if e and i % 3 == 0:      # the empty group elsewhere: after / inside the alternation
+                                out.append(("rx_shape", R % ("/%s%s%s%s%s%s/" % (pf, a, e, m, l, t))))
+                                out.append(("rx_shape", R % ("/%s%s%s%s/" % (pf, a.replace("|", "|()", 1), l, t))))
+    # alternations whose branches are all wide: the per-alternation literal count is a sum of large products
+    cls = [".", "\\S", "[^a]", "\\w", "[\\x00-\\xfe]"]
+    for k in range(1, 7):
+        for c1 in cls:
+            for c2 in cls[:3]:
+                out.append(("rx_wide_alt", R % ("/(%s|%s)/" % (c1 * k, c2 * k))))
+            out.append(("rx_wide_alt", R % ("/abc(%s|%s|%s)def/ nocase" % (c1 * k, c1 * k, c1 * k))))
+            out.append(("rx_wide_alt", R % ("/(%s|a)/" % (c1 * k))))
+    for k in range(1, 6):
+        for nb in (2, 3, 16, 256):
+            branch = " ".join(["??"] * k)
+            out.append(("hex_wide_alt", R % ("{ AB ( %s ) CD }" % " | ".join([branch] * nb))))
+            out.append(("hex_wide_alt", R % ("{ ( %s ) }" % " | ".join(["?%X %s" % (j % 16, branch) for j in range(nb)]))))
+    return out
+
+
 def time_families():
     """compile time must stay modest: repeated groups with empty branches, nested optional groups, ..."""
     R = 'rule a { strings: $a = /%s/ condition: $a }'
@@ -549,6 +589,8 @@ class C08(Prop):
         # string sections: runs of classes / masks / negations in and around alternation branches
         for nm, t in string_runs():
             out.append(self.mk("strrun:" + nm, t, {}))
+        for nm, t in regex_shapes():
+            out.append(self.mk("strshape:" + nm, t, {}))
         # compile time families (wall-clock cap; the time measured in the child must stay below 15 s)
         for nm, t in time_families():
             out.append(self.mk("time:" + nm, t, {}))
